@@ -14,3 +14,20 @@ pub mod hpack {
         (h.name().as_slice().to_vec(), h.value_slice().to_vec())
     }
 }
+
+/// Read-only snapshot of a connection's stream state (see `Connection::verif_snapshot`).
+#[derive(Debug, Clone)]
+pub struct StreamsSnapshot {
+    /// `Debug` text of every stream record, prefixed by its slab key
+    pub streams: Vec<String>,
+    pub counts: String,
+    pub recv: String,
+    pub send: String,
+    pub conn_error: String,
+    /// number of handles sharing the connection state
+    pub refs: usize,
+    /// received events buffered for the application (all streams)
+    pub recv_buffered: usize,
+    /// frames queued for sending (all streams)
+    pub send_buffered: usize,
+}
